@@ -676,6 +676,15 @@ def compare_with_model(ctx, work):
             if m != r:
                 ctx.divergence('the code regenerated from IntConverter.%s and the real method disagree' % ('init' if tag == 'gen-init' else 'validate'), [text, show(meta[4])], model=out, impl=real)
             continue
+        if tag == 'raw-key':
+            (v, hname), got = meta[3], meta[4]
+            ctx.case(['raw-key-model', text, hname, show(v)], kind='model-tie:raw-key')
+            m_ok = 'ok' in out
+            if 'init_error' in out or m_ok != (got[0] == 'ok'):
+                ctx.divergence('raw key through %s: real outcome differs from the root attribute validation of the model (rawKeyValidate)' % hname, [text, show(v)], model=out, impl=list(map(show, got)))
+            elif m_ok and got[1] is not None and out['ok'] != enc_out(got[1][0]):
+                ctx.divergence('raw key through %s: normalised key differs from the model' % hname, [text, show(v)], model=out, impl=show(got[1]))
+            continue
         if tag == 'mapping':
             map_out, dflt = meta[3], meta[4]
             if 'init_error' in out: m = ('error', out['init_error'])
@@ -730,6 +739,134 @@ def strip_tie(ctx):
         if o.get('ok') != [ord(c) for c in s.strip()]:
             ctx.divergence('model strip differs from str.strip()', repr(s), model=o, impl=repr(s.strip()))
 
+# ----------------------------------------------------------------------------------------------------------------
+# raw key values given for relationship attributes (one, two, three levels of indirection; composite keys)
+# ----------------------------------------------------------------------------------------------------------------
+
+CHAIN_SRC = """
+from pony.orm import *
+def build(db, pk_attr):
+    class R(db.Entity):
+        k = pk_attr
+        l0s = Set('L0'); l1 = Optional('L1'); cs = Set('C')
+    class L0(db.Entity):
+        r = Optional(R)
+    class L1(db.Entity):
+        r = PrimaryKey(R)
+        l2s = Set('L2'); m = Optional('M')
+    class L2(db.Entity):
+        l1 = Optional(L1)
+    class M(db.Entity):
+        l1 = PrimaryKey(L1)
+        l3s = Set('L3')
+    class L3(db.Entity):
+        m = Optional(M)
+    class P(db.Entity):
+        code = PrimaryKey(str, 3)
+        cs = Set('C')
+    class C(db.Entity):
+        r = Required(R)
+        p = Required(P)
+        PrimaryKey(r, p)
+        crs = Set('CR')
+    class CR(db.Entity):
+        c = Optional(C)
+    return {'L0': (L0, 'r', 1, False), 'L2': (L2, 'l1', 2, False), 'L3': (L3, 'm', 3, False), 'CR': (CR, 'c', 2, True)}
+"""
+
+def chain_entry(H, attr, base_id, entry, v):
+    """-> ('ok', raw key tuple the attribute holds / None) | ('error', class)"""
+    with db_session:
+        try:
+            if entry == 'create':
+                o = H(**{attr: v}); return ('ok', o._vals_[getattr(H, attr)]._get_raw_pkval_())
+            if entry == 'assign':
+                o = H[base_id]; setattr(o, attr, v); return ('ok', o._vals_[getattr(H, attr)]._get_raw_pkval_())
+            if entry == 'set':
+                o = H[base_id]; o.set(**{attr: v}); return ('ok', o._vals_[getattr(H, attr)]._get_raw_pkval_())
+            if entry == 'get':
+                H.get(**{attr: v}); return ('ok', None)
+            if entry == 'exists':
+                H.exists(**{attr: v}); return ('ok', None)
+            if entry == 'filter':
+                H.select().filter(**{attr: v})[:]; return ('ok', None)
+            raise AssertionError(entry)
+        except Exception as e:
+            return ('error', type(e).__name__)
+        finally:
+            try: rollback()
+            except Exception: pass
+
+def raw_key_chains(ctx, work):
+    rng = ctx.rng
+    roots = [Decl('int', {'min': 1, 'max': 1000}, True, pk=True), Decl('int', {'size': 8, 'unsigned': True}, True, pk=True), Decl('int', {}, True, pk=True),
+             Decl('int', {'min': 0}, True, check='even', pk=True), Decl('int', {'size': 16, 'max': 0}, True, pk=True),
+             Decl('str', {'max_len_pos': 5}, True, pk=True), Decl('str', {'max_len': 3, 'autostrip': False}, True, pk=True), Decl('str', {}, True, pk=True),
+             Decl('str', {'max_len': 4}, True, check='short', pk=True), Decl('dec', {'min': 0, 'max': 10}, True, pk=True)]
+    grid, _ = int_decls(ctx)
+    for _, d in rng.sample([x for x in grid], ctx.scale(3, 25)):
+        roots.append(Decl('int', d.topts, True, pk=True))
+    code_decl = Decl('str', {'max_len_pos': 3}, True, pk=True)
+    for d in roots:
+        text = d.text()
+        ns = {}
+        try:
+            exec(CHAIN_SRC, ns)
+            db = Database()
+            holders = ns['build'](db, PrimaryKey(d.py_type(), *d.args(), **d.kwargs()))
+            db.bind('sqlite', ':memory:'); db.generate_mapping(create_tables=True)
+        except Exception as e:
+            ctx.count('raw-key:root-declaration-rejected-at-mapping:%s' % type(e).__name__); continue
+        cands = {'int': int_candidates, 'dec': dec_candidates}.get(d.kind, lambda dd: str_candidates(dd, rng))(d)
+        cands = [v for v in cands if v is not None and v is not DEFAULT and not isinstance(v, (tuple, list, bytes))]
+        if d.kind == 'int': cands = [v for v in cands if not isinstance(v, int) or abs(v) <= 2 ** 65]
+        if len(cands) > 40: cands = cands[:30] + rng.sample(cands[30:], 10)
+        mt = d.model_type()
+        for hname, (H, attr, levels, composite) in holders.items():
+            try:
+                with db_session:
+                    o = H(); commit(); base_id = o.id
+            except Exception as e:
+                ctx.divergence('creating the holder object raised %s' % type(e).__name__, [text, hname]); continue
+            if composite:
+                codes = ['ab', ' ab ', 'abcd', '', 5]
+                vals = [(v, 'ab') for v in cands[:14]] + [(w, c) for w in [x for x in cands if spec_convert(d, x)[0] == 'ok'][:2] for c in codes] + [(cands[0],), (cands[0], 'ab', 'x')]
+            else: vals = cands
+            for v in vals:
+                # expectation from the declared constraints of the root key attribute(s) alone
+                if composite:
+                    if len(v) != 2: exp = ('reject', 'wrong number of key columns')
+                    else:
+                        e1 = spec(d, v[0], None); e2 = spec(code_decl, v[1], None)
+                        exp = ('ok', (e1[1], e2[1])) if e1[0] == 'ok' and e2[0] == 'ok' else ('reject', e1[1] if e1[0] != 'ok' else e2[1])
+                else:
+                    e1 = spec(d, v, None)
+                    exp = ('ok', (e1[1],)) if e1[0] == 'ok' else e1
+                for entry in ('create', 'assign', 'set', 'get', 'exists', 'filter'):
+                    if entry in ('get', 'exists', 'filter') and exp[0] == 'ok' and not all(storable(d, x) for x in exp[1]): continue
+                    got = chain_entry(H, attr, base_id, entry, v)
+                    ctx.case(['raw-key', text, hname, show(v), entry], kind='entry:raw-key:%d-level%s:%s' % (levels, '-composite' if composite else '', entry))
+                    ctx.count('raw-key:%s' % ('accepted' if got[0] == 'ok' else got[1]))
+                    inp = {'root_key': 'R.k = ' + text, 'path': '%s.%s -> %s' % (hname, attr, {'L0': 'R', 'L2': 'L1 -> R', 'L3': 'M -> L1 -> R', 'CR': 'C -> (R, P)'}[hname]), 'raw_value': show(v), 'entry_point': entry}
+                    key = None
+                    if got[0] == 'ok' and exp[0] == 'reject':
+                        what = 'a raw key value that violates the declared constraints of the key attribute it denotes (%s) is accepted for a relationship attribute' % exp[1]
+                        key = 'raw-key-accepted-invalid:%s:%s:%s:%s' % (text, hname, show(v), entry)
+                    elif got[0] == 'error' and exp[0] == 'ok':
+                        what = 'a raw key value that satisfies the declared constraints of the key attribute is rejected for a relationship attribute (%s)' % got[1]
+                        key = 'raw-key-rejected-valid:%s:%s:%s:%s' % (text, hname, show(v), entry)
+                    elif got[0] == 'ok' and got[1] is not None and not (len(got[1]) == len(exp[1]) and all(same_value(a, b) or (isinstance(a, Decimal) and isinstance(b, Decimal) and a == b) for a, b in zip(got[1], exp[1]))):
+                        what = 'the key the relationship attribute refers to is not the documented normalisation of the raw value'
+                        key = 'raw-key-wrong-normalisation:%s:%s:%s:%s' % (text, hname, show(v), entry)
+                    if key is not None:
+                        ctx.violation(what, inp, observed=list(map(show, got)), expected=[exp[0], show(exp[1])], key=key)
+                    # the model: rawKeyValidate n f v = f v — the root attribute's validation, whatever the number of levels
+                    if not composite and entry == 'create':
+                        w = v
+                        work.reqs.append(dict(op='validate', type=mt, attr=d.model_attr(None), value=enc(v), check=check_result(d, w), entry='lookup', **aux_for(d, w)))
+                        work.meta.append(('raw-key', d, text, (v, hname), got))
+        db.disconnect()
+
 def run(ctx):
     rng = ctx.rng
     work = Work()
@@ -750,6 +887,7 @@ def run(ctx):
     nan_witness(ctx)
     for d, cand in plans:
         run_decl(ctx, d, cand(d), work)
+    raw_key_chains(ctx, work)
     compare_with_model(ctx, work)
     strip_tie(ctx)
     ctx.note('float and Decimal conversions float(v)/Decimal(v) are Python built-ins: the model receives their results; the bound tests are on exact rationals')
